@@ -25,6 +25,9 @@ fn main() {
         }
         return;
     }
+    if args[0] == "selftest" {
+        std::process::exit(props::selftest::run());
+    }
     // child-process entry points (C01)
     if args[0] == "--child" {
         std::process::exit(props::child_main(&args[1..]));
